@@ -13,8 +13,16 @@ import (
 	"golang.org/x/tools/go/ssa/ssautil"
 )
 
+// repoDir is the tree under verification: /repo. (SYMGO_REPO points the same checks at a
+// scratch worktree when a seeded change is tried out; the registered commands never set it.)
+var repoDir = func() string {
+	if d := os.Getenv("SYMGO_REPO"); d != "" {
+		return d
+	}
+	return "/repo"
+}()
+
 const (
-	repoDir   = "/repo"
 	modPath   = "github.com/alligator/jqawk"
 	vhPath    = modPath + "/zzverif/vh"
 	extPath   = modPath + "/zzverif/ext"
